@@ -41,16 +41,17 @@ pub fn decode_accepts(p: &[u8]) -> bool {
     f == 0 || ctrl_data_len(p) == f as isize
 }
 pub fn payload_start(p: &[u8]) -> usize { if p[8] & 0x7f == 0 { if p[9] & 0x80 != 0 { 11 } else { 12 } } else { 9 } }
-/// recorded finding D9 (decoder panic classes)
+/// recorded finding D9c (decoder panic class): a control response whose completion code is above 0x05
+/// (D9a/D9b - the length tables - and D10a-c - the processor - are fixed: no other input is excluded)
 pub fn decode_known_panic(p: &[u8]) -> bool {
-    hdr_ok(p) && p[8] & 0x7f == 0 && p.len() >= 12 && (
-        (p[9] & 0x80 != 0 && p[10] > 8)
-        || (p[9] & 0x80 == 0 && p.len() >= 13 && (p[11] > 5 || (p[11] == 0 && !(p[10] <= 6 || p[10] == 8 || p[10] == 9)))))
+    hdr_ok(p) && p[8] & 0x7f == 0 && p.len() >= 13 && p[9] & 0x80 == 0 && p[11] > 5
 }
-/// recorded finding D10 (processor panic classes)
-pub fn process_known_panic(p: &[u8], n_vendor: usize) -> bool {
-    decode_accepts(p) && p[8] & 0x7f == 0 && p[9] & 0x80 != 0 && (
-        p[10] == 0 || p[10] == 7 || p[10] == 8
-        || (p[10] == 1 && !(p[11] == 0 || p[11] == 1 || p[11] == 3))
-        || (p[10] == 6 && p[11] as usize >= n_vendor))
+/// no processor panic class is recorded any more (D10a-c fixed)
+pub fn process_known_panic(_p: &[u8], _n_vendor: usize) -> bool { false }
+/// the commands this endpoint answers; every other accepted control request is handed to the caller without a response
+pub fn cmd_answered(c: u8) -> bool { (1..=6).contains(&c) }
+/// completion code of an answer: ErrorInvalidData for a Set Endpoint ID operation other than Set/Force and for a vendor
+/// selector at or beyond the configured sets, else Success
+pub fn answer_completion(p: &[u8], n_vendor: usize) -> u8 {
+    if (p[10] == 1 && p[11] != 0 && p[11] != 1) || (p[10] == 6 && p[11] as usize >= n_vendor) { 2 } else { 0 }
 }
